@@ -234,7 +234,7 @@ def clause_validator_rows(R, F):
     if fn is None or fb is None:
         return
     # the comparison rows sit in the validator's body or in a closure it hands to a lock accessor
-    row_bodies = [fn] + [g for g in F.fns.values() if g.kind == "closure" and g.j.get("parent") == fn.id]
+    row_bodies = [fn] + [g for g in F.descendants(fn.id) if g.kind == "closure"]
     g = row_bodies[-1] if len(row_bodies) > 1 else fn
 
     def role(a):
@@ -296,20 +296,56 @@ def clause_validator_rows(R, F):
                 continue
             for s2 in f.succ(b):
                 be = bool_edge(f, b, s2)
-                if be and be[1] is True and mentions(be[0], "is_some") and (s2 in eb2 or _leads_to_error_only(f, s2)):
-                    if mentions(be[0], "get_block_hash") and mentions(be[0], number_name):
+                cond = None
+                if be and be[1] is True and mentions(be[0], "is_some"):
+                    cond = be[0]
+                elif be and be[1] is False and mentions(be[0], "is_none"):
+                    cond = be[0]
+                else:
+                    # `match lookup { Some(_) => Err(..), None => .. }`: the Some edge of the lookup's discriminant
+                    d = origin(f, t["discr"])
+                    if d[0] == "discr" and len(d) > 3 and d[3]:
+                        vals = [v for v, tb in t["targets"] if tb == s2]
+                        names = [n for (n, v2) in d[3] if v2 in vals]
+                        if not vals and t.get("otherwise") == s2:
+                            names = [n for (n, v2) in d[3] if v2 not in [v for v, _ in t["targets"]]]
+                        if names == ["Some"]:
+                            cond = d
+                if cond is not None and (s2 in eb2 or _leads_to_error_only(f, s2)):
+                    if mentions(cond, "get_block_hash") and mentions(cond, number_name):
                         seen.setdefault("number", []).append(b)
-                    if mentions(be[0], "get_block_number") and mentions(be[0], hash_name):
+                    if mentions(cond, "get_block_number") and mentions(cond, hash_name):
                         seen.setdefault("hash", []).append(b)
         return seen
     seen = {}
     for k2, bbs in exists_rows(fn, "block_hash", "block_number").items():
         if must_pass_on_success(fn, bbs):
             seen[k2] = "inline"
+    # a closure handed to a lock accessor whose result is returned / propagated runs as part of the validator
+    cl_calls = []
+    for gcl in row_bodies[1:]:
+        for c in gcl.calls():
+            if not gcl.is_cleanup(c.bb) and c.target_id in F.fns and F.fns[c.target_id].blocks:
+                cl_calls.append((gcl, c))
+    for (gcl, c) in cl_calls:
+        g2 = F.inlined(F.fns[c.target_id])
+        if not (g2.j.get("output") or "").startswith("std::result::Result<()"):
+            continue
+        if not (must_pass_on_success(gcl, [c.bb]) and (c.t["dest"]["l"] == 0 or err_propagated(gcl, c))):
+            continue
+        import wire as _W
+        names2 = g2.j.get("param_names") or []
+        hn = [n for n, a in zip(names2, c.args) if mentions(_W.resolve(F, gcl, origin(gcl, a)), "block_hash")]
+        nn = [n for n, a in zip(names2, c.args) if mentions(_W.resolve(F, gcl, origin(gcl, a)), "block_number")]
+        for h in hn:
+            for n in nn:
+                for k2, bbs in exists_rows(g2, h, n).items():
+                    if must_pass_on_success(g2, bbs):
+                        seen[k2] = g2.name.split("::")[-1]
     for c in fn.calls():
         if fn.is_cleanup(c.bb) or not c.target_id or c.target_id not in F.fns or not F.fns[c.target_id].blocks:
             continue
-        g2 = F.fns[c.target_id]
+        g2 = F.inlined(F.fns[c.target_id])
         if not (g2.j.get("output") or "").startswith("std::result::Result<()"):
             continue
         if not (must_pass_on_success(fn, [c.bb]) and (c.t["dest"]["l"] == 0 or err_propagated(fn, c))):
@@ -347,25 +383,49 @@ def clause_select_bytes(R, F):
     fn = fn[0]
     eb = error_blocks(fn)
     table = {}
+
+    def which_var(t):
+        if mentions(t, "base64"):
+            return "b64"
+        if mentions(t, "raw"):
+            return "raw"
+        return None
     for p in enumerate_paths(fn):
-        variants = {}
+        cons = {}
+        feasible = True
         for i, b in enumerate(p[:-1]):
             t = fn.term(b)
-            if t["k"] == "switch":
-                d = origin(fn, t["discr"])
-                if d[0] == "discr" and len(d) > 3 and d[3]:
-                    which = "raw" if mentions(d[1], "raw") or (d[1][0] in ("deref", "param") and mentions(d[1], "raw_bytes")) else "b64"
-                    if mentions(d[1], "base64"):
-                        which = "b64"
-                    vals = [v for v, tb in t["targets"] if tb == p[i + 1]]
-                    names = [n for (n, val) in d[3] if val in vals]
-                    if not names and t["otherwise"] == p[i + 1]:
-                        names = [n for (n, val) in d[3] if val not in [v for v, _ in t["targets"]]]
-                    if names:
-                        variants[which] = names[0]
+            if t["k"] != "switch":
+                continue
+            d = origin(fn, t["discr"])
+            var, val = None, None
+            if d[0] == "discr" and len(d) > 3 and d[3]:
+                var = which_var(d[1])
+                vals = [v for v, tb in t["targets"] if tb == p[i + 1]]
+                names = [n for (n, v2) in d[3] if v2 in vals]
+                if not names and t["otherwise"] == p[i + 1]:
+                    names = [n for (n, v2) in d[3] if v2 not in [v for v, _ in t["targets"]]]
+                if len(names) == 1:
+                    val = names[0]
+            else:
+                be = bool_edge(fn, b, p[i + 1])
+                if be and be[1] is not None and be[0][0] == "call" and be[0][1].split("::")[-1] in ("is_some", "is_none"):
+                    var = which_var(be[0])
+                    pos = be[0][1].split("::")[-1] == "is_some"
+                    val = "Some" if (pos == be[1]) else "None"
+            if var is None or val is None:
+                continue
+            if var in cons and cons[var] != val:
+                feasible = False
+                break
+            cons[var] = val
+        if not feasible:
+            continue
         is_err = any(b in eb for b in p)
-        key = (variants.get("raw"), variants.get("b64"))
-        table.setdefault(key, set()).add("Err" if is_err else "Ok")
+        for r in ("Some", "None"):
+            for b6 in ("Some", "None"):
+                if cons.get("raw", r) == r and cons.get("b64", b6) == b6:
+                    table.setdefault((r, b6), set()).add("Err" if is_err else "Ok")
     want = {("Some", "None"): {"Ok"}, ("None", "Some"): {"Ok"}, ("None", "None"): {"Err"}, ("Some", "Some"): {"Err"}}
     for k, v in want.items():
         R.ob(table.get(k) == v, "GUARD", fn.where(), "GUARD|select_bytes|%s-%s" % k,
@@ -583,7 +643,7 @@ def clause_block_info_reset(R, F, owners=("clear_caches", "finalise_block")):
                     per_field.setdefault(p[1].lstrip("."), []).append(rvalue_origin(f, s["rv"], bi, frozenset(), 40))
         if whole or per_field:
             writers.append((f, whole, per_field))
-    R.floor("block_info_writers", len(writers), 4)
+    R.floor("block_info_writers", len(writers), 2)
     # accumulators: fields with a self-dependent, non-identity update somewhere
     acc = set()
     for f, whole, per_field in writers:
